@@ -99,3 +99,10 @@ pub fn v_min_usize(a: usize, b: usize) -> (r: usize) ensures r == (if a <= b { a
 // R1: println!(..) -> vprint(): output text is not verified
 #[verifier::external_body]
 pub fn vprint() { }
+// T: lower-casing leaves the already lower-case ASCII literals "true" and "false" unchanged
+#[verifier::external_body]
+pub proof fn lower_ascii_literals() ensures lower("true"@) == "true"@, lower("false"@) == "false"@ { }
+// T5 (environment assumption, applied only where a unit names it): argument lists and scripts have
+// fewer than 2^31 elements, so i32 counters over them cannot overflow
+#[verifier::external_body]
+pub proof fn script_size_assumption(n: nat) ensures n < i32::MAX { }
